@@ -515,8 +515,10 @@ class Rewriter:
     def expand_macro(self, name, macro_text):
         """Expand every invocation `NAME!(args)` (optionally `path::NAME!`) in place with the arm of the
         real `macro_rules! NAME` (text taken from /repo) that has the same number of parameters:
-        `$param` -> argument text, verbatim. Only arms of the form `($a:kind, $b:kind, ..) => {{ .. }};`
-        are supported; anything else is an ExtractError (exit 2)."""
+        `$param` -> argument text (an `expr` argument that is not a single token is wrapped in
+        parentheses, as macro_rules treats it as one expression node); `paste::paste! { X }` -> `{ X }`
+        and `[<A B>]` -> `AB` (what the paste crate does). Only arms whose pattern is a plain
+        parameter list `($a:kind, $b:kind, ..)` are supported; anything else is an ExtractError (exit 2)."""
         mm = mask(macro_text)
         arms = []
         pos = mm.index("{") + 1
@@ -526,15 +528,15 @@ class Rewriter:
                 break
             po = m1.end() - 1
             pc = match_close(mm, po, "(", ")")
-            params = re.findall(r"\$([A-Za-z_][A-Za-z_0-9]*)\s*:\s*[a-z]+", macro_text[po + 1:pc])
+            params = re.findall(r"\$([A-Za-z_][A-Za-z_0-9]*)\s*:\s*([a-z]+)", macro_text[po + 1:pc])
             if re.sub(r"\$[A-Za-z_][A-Za-z_0-9]*\s*:\s*[a-z]+|[\s,]", "", macro_text[po + 1:pc]):
                 raise ExtractError("%s: R12: macro %s has an arm that is not a plain parameter list" % (self.label, name))
-            m2 = re.compile(r"\s*=>\s*\{\{").match(mm, pc + 1)
+            m2 = re.compile(r"\s*=>\s*\{").match(mm, pc + 1)
             if not m2:
-                raise ExtractError("%s: R12: macro %s arm body is not `{{ .. }}`" % (self.label, name))
-            bo = m2.end() - 2
+                raise ExtractError("%s: R12: macro %s arm has no `{ .. }` body" % (self.label, name))
+            bo = m2.end() - 1
             bc = match_close(mm, bo)
-            arms.append((params, macro_text[bo + 1:bc]))  # inner `{ .. }`
+            arms.append((params, macro_text[bo + 1:bc]))  # what the macro expands to
             m3 = re.compile(r"\s*;?").match(mm, bc + 1)
             pos = m3.end()
         if not arms:
@@ -545,16 +547,20 @@ class Rewriter:
             inv = re.search(r"(?:\b[A-Za-z_][A-Za-z_0-9]*::)*\b%s!\s*\(" % re.escape(name), m)
             if not inv:
                 break
+            if n > 50:
+                raise ExtractError("%s: R12: runaway expansion of %s" % (self.label, name))
             ao = inv.end() - 1
             ac = match_close(m, ao, "(", ")")
-            args, depth, last = [], 0, ao + 1
+            args, depth, last, pipes = [], 0, ao + 1, False
             for k in range(ao + 1, ac):
                 ch = m[k]
-                if ch in "([{":
+                if ch == "|" and depth == 0 and (pipes or not self.text[last:k].strip()):
+                    pipes = not pipes  # parameter list of a closure argument: `|a: &T, b: &T| ..`
+                elif ch in "([{":
                     depth += 1
                 elif ch in ")]}":
                     depth -= 1
-                elif ch == "," and depth == 0:
+                elif ch == "," and depth == 0 and not pipes:
                     args.append(self.text[last:k].strip())
                     last = k + 1
             tail = self.text[last:ac].strip()
@@ -564,13 +570,44 @@ class Rewriter:
             if len(arm) != 1:
                 raise ExtractError("%s: R12: %s!(..) with %d arguments matches %d arms" % (self.label, name, len(args), len(arm)))
             params, body = arm[0]
-            for prm, arg in sorted(zip(params, args), key=lambda t: -len(t[0])):
+            # macro_rules hygiene: a local variable bound inside the macro body is a different variable
+            # from one of the same name at the call site, so every identifier that the body BINDS
+            # (let / pattern / closure parameter) is renamed before the arguments are pasted in
+            mb = mask(body)
+            bound = set(re.findall(r"\blet\s+(?:mut\s+)?([a-z_][a-z_0-9]*)\b", mb))
+            bound |= set(re.findall(r"\b[A-Z][A-Za-z_0-9]*\(\s*(?:mut\s+|ref\s+)?([a-z_][a-z_0-9]*)\s*\)\s*(?:=>|if\b|=[^=])", mb))
+            bound |= set(re.findall(r"\{\s*([a-z_][a-z_0-9]*)\s*,\s*\.\.\s*\}\s*=", mb))
+            bound -= {"self", "_"}
+            self._hyg = getattr(self, "_hyg", 0) + 1
+            for ident in sorted(bound, key=len, reverse=True):
+                mb = mask(body)  # rename in code only, never inside string literals or comments
+                spans = [x.span() for x in re.finditer(r"(?<![\w$.])%s\b(?!\s*(?:\(|!|::))" % re.escape(ident), mb)]
+                for a_, b_ in reversed(spans):
+                    body = body[:a_] + "%s__m%d" % (ident, self._hyg) + body[b_:]
+            # (struct-pattern shorthand `{ x, .. }` names a field: keep the field, bind the renamed local)
+            body = re.sub(r"\{\s*([a-z_][a-z_0-9]*)__m(\d+)\s*,\s*\.\.\s*\}", r"{ \1: \1__m\2, .. }", body)
+            for (prm, kind), arg in sorted(zip(params, args), key=lambda t: -len(t[0][0])):
+                if kind == "expr" and not re.match(r"^[&*]?[A-Za-z_0-9:.]+$", arg) and not re.match(r"^\[<.*>\]$", arg):
+                    arg = "(" + arg + ")"
                 body = re.sub(r"\$%s\b" % re.escape(prm), lambda _m, a=arg: a, body)
             if "$" in mask(body):
                 raise ExtractError("%s: R12: unexpanded `$` left in %s" % (self.label, name))
             self.text = self.text[:inv.start()] + body + self.text[ac + 1:]
             n += 1
+        # the paste crate: `[<A B>]` concatenates identifiers, `paste::paste! { X }` is X
+        self.text, k1 = re.subn(r"\[<\s*([A-Za-z_0-9]+)\s+([A-Za-z_0-9]+)\s*>\]", r"\1\2", self.text)
+        k2 = 0
+        while True:
+            m = mask(self.text)
+            pm = re.search(r"\bpaste::paste!\s*\{", m)
+            if not pm:
+                break
+            po = pm.end() - 1
+            pc = match_close(m, po)
+            self.text = self.text[:pm.start()] + "{" + self.text[po + 1:pc] + "}" + self.text[pc + 1:]
+            k2 += 1
         self.hit("R12-" + name, n)
+        self.hit("R12-paste", k1 + k2)
         return n
 
     # R14 -----------------------------------------------------------------
